@@ -150,10 +150,16 @@ def validate_traces(module: str, traces: list[dict], *, cfg: str | None = None, 
 # corpus cache: several properties are decided on one corpus; running their checks in a row must not redo it, while any edit
 # under /repo, /verif/specs or /verif/harness invalidates it
 
-def tree_hash() -> str:
+def tree_hash(deps=None) -> str:
+    """deps: None = repo + all specs + harness; else repo + the listed files/directories under /verif"""
     import hashlib
     h = hashlib.sha256()
-    for root in (REPO / "openpectus", VERIF / "specs", VERIF / "harness"):
+    roots = [REPO / "openpectus"] + ([VERIF / "specs", VERIF / "harness"] if deps is None else [VERIF / d for d in deps])
+    for root in roots:
+        if root.is_file():
+            h.update(str(root).encode())
+            h.update(root.read_bytes())
+            continue
         for f in sorted(root.rglob("*")):
             if f.suffix in (".py", ".tla", ".cfg", ".json", ".rst") and f.is_file() and "frontend" not in f.parts \
                     and "__pycache__" not in f.parts:
@@ -163,12 +169,12 @@ def tree_hash() -> str:
     return h.hexdigest()[:24]
 
 
-def cached(name: str, ctx: "Ctx", compute):
+def cached(name: str, ctx: "Ctx", compute, deps=None):
     """compute() -> JSON-able result; cached under .cache/<name>-<tier>-<seed>-<tree hash>.json"""
     import pickle
     cdir = VERIF / ".cache"
     cdir.mkdir(exist_ok=True)
-    key = cdir / f"{name}-{ctx.tier}-{ctx.seed}-{tree_hash()}.pkl"
+    key = cdir / f"{name}-{ctx.tier}-{ctx.seed}-{tree_hash(deps)}.pkl"
     if key.exists() and not os.environ.get("VERIF_NOCACHE"):
         try:
             with open(key, "rb") as fh:
